@@ -99,7 +99,7 @@ def ladder_instances(tier, fam='ladder', safety=False):
                     continue
                 L.append(Inst('%s.n%d.shape%d.%s' % (fam, n, si, nm), 'h_switchshape.c', {'CTRL': ctrl}, units=['tree', 'util', 'type'],
                               overrides=['fatal', 'xmalloc'], native_units=ALLNATIVE, unwind=n + 3, family=fam, safety=safety,
-                              unwindset=['il_run.0:24', 'il_is_stop.0:14', 'casesearch.0:%d' % (h + 2)], files={'shape.inc': inc},
+                              unwindset=['il_run.0:24', 'il_is_stop.0:14', 'il_run.1:70', 'casesearch.0:%d' % (h + 2)], files={'shape.inc': inc},
                               timeout=120 if tier == 'quick' else 1800, mem_gb=8 if tier == 'quick' else 24,
                               bound={'case_labels': n, 'tree_height': h, 'controlling_type': nm,
                                      'constants': 'symbolic type (int/unsigned/64-bit) and value', 'probe': 'symbolic'}))
